@@ -57,6 +57,7 @@ type rigConf struct {
 	Ordered      bool          `json:"ordered"`
 	Delete       bool          `json:"delete"`
 	OneShot      bool          `json:"one_shot"` // graceful stop right after start (as main does without --loop)
+	Rerun        bool          `json:"rerun"`    // a one-shot sender that exited with work left is invoked again a minute later (cron)
 	ScanDelay    time.Duration `json:"scan_delay"`
 	PollDelay    time.Duration `json:"poll_delay"`
 	PollInterval time.Duration `json:"poll_interval"`
@@ -123,6 +124,13 @@ type wireReq struct {
 	EndAt    time.Duration
 }
 
+// preloaded: a version the receiver delivered in an earlier run.
+type preloaded struct {
+	Name string
+	Data string
+	AgeH int // hours before the run starts
+}
+
 // ---------------------------------------------------------------- the rig
 
 type rig struct {
@@ -162,6 +170,7 @@ type rig struct {
 	stopAt   time.Duration
 	doneAt   time.Duration
 	finished bool
+	reruns   int
 
 	// what the source directory held: every content (md5) each name ever had, the content
 	// expected to arrive in the end, names the harness changed during the run
@@ -169,6 +178,13 @@ type rig struct {
 	expect      map[string]string
 	lastContent map[string]string
 	changed     map[string]bool
+
+	downUntil time.Duration // the receiver is unreachable until then
+	preload []preloaded // what the receiver delivered and logged in an earlier run (known only from its log)
+	fileOps []string    // file changes offered at every sender action (C17): rewrite, append, touch, delete
+
+	// snapshot taken when the sender crashes: what the receiver had delivered by then
+	finalAtCrash []map[string]string
 
 	// oracle hooks
 	onRemove func(r *rig, name string)
@@ -275,6 +291,20 @@ func (r *rig) wrapGK(gk sts.GateKeeper) sts.GateKeeper {
 
 func (r *rig) startReceiver() {
 	r.recvDir = filepath.Join(r.root, fmt.Sprintf("recv%d", r.rgen))
+	for _, p := range r.preload {
+		t := time.Now().Add(-time.Duration(p.AgeH) * time.Hour)
+		lf := filepath.Join(r.recvLog(), fmt.Sprintf("%04d%02d", t.Year(), t.Month()), fmt.Sprintf("%02d", t.Day()))
+		_ = os.MkdirAll(filepath.Dir(lf), 0755)
+		_ = os.MkdirAll(r.stageDir(), 0755)
+		f, err := os.OpenFile(lf, os.O_APPEND|os.O_CREATE|os.O_WRONLY, 0644)
+		if err != nil {
+			panic(err)
+		}
+		h := vh.MD5([]byte(p.Data))
+		fmt.Fprintf(f, "%s::%s:%d:%d:\n", p.Name, h, len(p.Data), t.Unix())
+		f.Close()
+		r.versions[p.Name] = append(r.versions[p.Name], h)
+	}
 	app := r.buildServerApp(r.recvDir)
 	r.srvApp = app
 	r.srv = app.server
@@ -485,11 +515,27 @@ func (r *rig) common(gen int, kind, ident string, menu []string) string {
 	case alt == "recv-restart":
 		r.restartReceiver()
 		return ""
+	case strings.HasPrefix(alt, "down:"):
+		// the receiver is unreachable from now on for the given number of seconds
+		var secs int
+		fmt.Sscanf(alt[5:], "%d", &secs)
+		r.mu.Lock()
+		r.downUntil = r.now() + time.Duration(secs)*time.Second
+		r.lastDev = r.downUntil
+		r.mu.Unlock()
+		r.note("receiver unreachable for %d s", secs)
+		return ""
 	case strings.HasPrefix(alt, "file:"):
 		r.fileChange(alt)
 		return ""
 	}
 	return alt
+}
+
+func (r *rig) isDown() bool {
+	r.mu.Lock()
+	defer r.mu.Unlock()
+	return r.now() < r.downUntil
 }
 
 func (r *rig) requestStop(graceful bool) {
@@ -521,6 +567,7 @@ func (r *rig) crashSender() {
 	if err := vh.CopyTreeStamped(oldDir, newDir); err != nil {
 		panic(err)
 	}
+	r.finalAtCrash = append(r.finalAtCrash, r.finalFiles())
 	r.note("sender crashed; incarnation %d starts", r.gen)
 	go func() { // drain the dead incarnation
 		oldStop <- false
@@ -532,7 +579,15 @@ func (r *rig) crashSender() {
 
 // ---- file changes (C17)
 
-func (r *rig) fileMenu() []string { return nil }
+func (r *rig) fileMenu() []string {
+	var out []string
+	for _, op := range r.fileOps {
+		for _, f := range r.conf.Files {
+			out = append(out, "file:"+op+":"+f.Name)
+		}
+	}
+	return out
+}
 
 func (r *rig) fileChange(alt string) {
 	// file:<op>:<name>
@@ -643,7 +698,7 @@ func sig(parts []wirePart) string {
 
 func (r *rig) transmit(gen int, real sts.Transmit, p sts.Payload) (int, error) {
 	parts := payloadParts(p)
-	menu := []string{"refuse", "lost", "recv-restart"}
+	menu := []string{"refuse", "lost", "recv-restart", "down:60"}
 	for i := range parts {
 		menu = append(menu, fmt.Sprintf("gkfail:%d", i), fmt.Sprintf("cut:%d", i), fmt.Sprintf("corrupt:%d", i))
 	}
@@ -668,7 +723,7 @@ func (r *rig) transmit(gen int, real sts.Transmit, p sts.Payload) (int, error) {
 	}
 	lose := false
 	switch {
-	case alt == "refuse":
+	case alt == "refuse" || r.isDown():
 		return finish(0, errors.New("injected: connection refused"))
 	case alt == "lost":
 		lose = true
@@ -706,6 +761,9 @@ func (r *rig) txRecover(gen int, real sts.RecoverTransmission, p sts.Payload) (i
 	r.mu.Unlock()
 	var n int
 	var err error
+	if r.isDown() {
+		alt = "refuse"
+	}
 	switch alt {
 	case "refuse":
 		err = errors.New("injected: connection refused")
@@ -741,6 +799,9 @@ func (r *rig) validate(gen int, real sts.Validate, files []sts.Pollable) ([]sts.
 	r.mu.Unlock()
 	var polled []sts.Polled
 	var err error
+	if r.isDown() {
+		alt = "refuse"
+	}
 	switch alt {
 	case "refuse":
 		err = errors.New("injected: connection refused")
@@ -778,7 +839,7 @@ func (r *rig) partials(gen int, real sts.Recover) ([]*sts.Partial, error) {
 	r.mu.Lock()
 	r.wire = append(r.wire, w)
 	r.mu.Unlock()
-	if alt == "refuse" {
+	if alt == "refuse" || r.isDown() {
 		w.Err = "injected: connection refused"
 		w.EndAt = r.now()
 		return nil, errors.New(w.Err)
@@ -813,11 +874,25 @@ func (r *rig) run(goal func(r *rig) bool) {
 	for {
 		select {
 		case <-r.done:
-			if r.genOfDone() {
-				r.finished = true
-				r.doneAt = r.now()
-				return
+			r.finished = true
+			r.doneAt = r.now()
+			if r.conf.OneShot && r.conf.Rerun && r.stopped == "" && goal != nil && !goal(r) && r.now()-r.lastDev <= r.conf.Horizon {
+				// the next invocation of the one-shot sender (same cache and logs)
+				time.Sleep(time.Minute)
+				r.cli.destroy()
+				old := r.sendDir
+				r.mu.Lock()
+				r.gen++
+				r.mu.Unlock()
+				if err := vh.CopyTreeStamped(old, filepath.Join(r.root, fmt.Sprintf("send%d", r.gen))); err != nil {
+					panic(err)
+				}
+				r.reruns++
+				r.note("one-shot sender invoked again (incarnation %d)", r.gen)
+				r.startSender()
+				continue
 			}
+			return
 		case <-time.After(tick):
 		}
 		if goal != nil && goal(r) && r.stopped == "" && !r.conf.OneShot {
@@ -831,6 +906,33 @@ func (r *rig) run(goal func(r *rig) bool) {
 
 // genOfDone: r.done always belongs to the current incarnation (older ones are drained elsewhere)
 func (r *rig) genOfDone() bool { return true }
+
+// stuck lists where the sender's goroutines are blocked (diagnosis of a sender that does not exit).
+func (r *rig) stuck() string {
+	buf := make([]byte, 1<<20)
+	n := runtime.Stack(buf, true)
+	var out []string
+	for _, g := range strings.Split(string(buf[:n]), "\n\n") {
+		if !strings.Contains(g, "sts/client.") {
+			continue
+		}
+		lines := strings.Split(g, "\n")
+		var fr []string
+		for _, l := range lines {
+			if strings.Contains(l, "sts/client.") && !strings.HasPrefix(l, "created by") {
+				fr = append(fr, strings.TrimSpace(l[strings.Index(l, "sts/client.")+4:]))
+			} else if strings.Contains(l, "/client/client.go:") {
+				fr = append(fr, strings.TrimSpace(l[strings.Index(l, "client.go:"):]))
+			}
+		}
+		if len(fr) > 4 {
+			fr = fr[:4]
+		}
+		out = append(out, lines[0]+" "+strings.Join(fr, " <- "))
+	}
+	sort.Strings(out)
+	return strings.Join(out, "\n")
+}
 
 // close tears everything down so that the bubble can end.
 func (r *rig) close() {
